@@ -346,14 +346,26 @@ TRUNCATING = re.compile(r"Iterator::(map_while|take_while|skip_while|take|skip|s
 
 def sh_visit(ctx, out, name, attr=None, rule="SH.visit"):
     """The loops over `context.blocks` and `blocks_with_context` iterate the collections directly
-    (no truncating adaptor) and a block without the rule's attribute continues with the next block."""
-    attr = attr or name
+    (no truncating adaptor) and a block without the rule's attribute continues with the next block.
+    Decided on the validator as written or, failing that, on its normalised view (loops over a helper's
+    `impl Iterator`, pipelines)."""
+    from engine.core import on_any_view
     vb = ctx.validate_body(name)
     if vb is None:
         out.inst(rule + "." + name, 0, 2)
         return
+    views = [ctx.facts.with_descendants(vb)]
+    if not vb.coroutine:
+        sv = ctx.validate_body(name, inline=True, sugar=True)
+        if sv is not None and sv is not vb:
+            views.append([sv])
+    on_any_view(out, views, lambda bodies, o: _sh_visit(ctx, o, name, attr, rule, bodies))
+
+
+def _sh_visit(ctx, out, name, attr, rule, bodies):
+    attr = attr or name
     n = 0
-    for body in ctx.facts.with_descendants(vb):
+    for body in bodies:
         cfg = cfg_of(body)
         E = ctx.expr(body)
         for h, blocks, kind in outer_block_loops(ctx, body):
@@ -425,6 +437,10 @@ def _err_blocks(body):
 
 def _loop_exits_ok(ctx, out, rule, name, body, cfg, h, blocks, kind):
     from rules import util as U
+    if body.blocks[h].get("lazy_inner"):
+        # the inner pull loop of a lazily consumed `flat_map`: handing an item to the consumer's body is
+        # not an exit of the iteration (the enclosing loop is the iteration and is checked as such)
+        return 1
     nb = [y for y in blocks if body.blocks[y]["term"] and body.blocks[y]["term"]["k"] == "call" and callee_matches(body.blocks[y]["term"], r"Iterator>?::next$")]
     # the exhausted-iterator exits: None arms of the driving next() calls of this loop nest level
     none_targets = set()
@@ -448,6 +464,11 @@ def _loop_exits_ok(ctx, out, rule, name, body, cfg, h, blocks, kind):
             # leaving through a block that sets the error first is handled by `avoid`; reaching a return
             # (or an enclosing loop's next iteration) without passing an error producer is a break
             enclosing = [H for H, HB in cfg.loops().items() if H != h and bset < set(HB)]
+            # a lazily pulled pipeline hands each item to the loop body and is resumed afterwards: an edge
+            # from which this loop's head is reached again before the enclosing iteration advances is not
+            # an exit of the iteration
+            if enclosing and h in cfg.reach(y, avoid=set(enclosing) | eb):
+                continue
             if normal or any(H in r for H in enclosing):
                 # the exit edge of an inner exhausted iterator (nested pull loops) is not a break
                 if x in eb:
